@@ -37,6 +37,16 @@ MCInit ==
         /\ hist = <<[a |-> "New", in |-> in, out |-> [x |-> 0], st |-> [stage |-> "start"]]>>
 MCSpec == MCInit /\ [][Next]_vars
 
+\* the economics stage on its own: every small epoch, in particular fees below / equal / above the inflation
+CONSTANTS EcoInfls, EcoBlocks, EcoAccs, EcoDevs, EcoPcts
+EcoInit ==
+    \E f \in EcoInfls, b \in EcoBlocks, a \in EcoAccs, d \in EcoDevs, lp \in EcoPcts, pp \in EcoPcts :
+        /\ in = [infl |-> f * b, nb |-> b, acc |-> a, dev |-> d, lp |-> [num |-> lp, k |-> 2], pp |-> [num |-> pp, k |-> 2]]
+        /\ EcoConsistent(in) /\ lp + pp <= 100
+        /\ stage = "eco-start" /\ fig = NoFig
+        /\ hist = <<[a |-> "New", in |-> in, out |-> [x |-> 0], st |-> [stage |-> "eco-start"]]>>
+EcoSpec == EcoInit /\ [][EcoNext]_vars
+
 GenNext  == Len(hist) < Depth /\ Next
 GenSpec  == MCInit /\ [][GenNext]_vars
 \* input export: the initial states are the inputs; one line per input (printed when the first stage is taken)
